@@ -252,12 +252,18 @@ Record queue := {
 (* countQueueMemSize(queueCap) — Go int arithmetic, no wrap for a uint32 cap *)
 Definition queue_mem_size (cap : Z) : Z := c_queueHeaderLength + c_queueElementLen * cap.
 
+(* the ring end as queue.go computed it before commit 97d22d3 (uint32: queueHeaderLength +
+   cap*queueElementLen); kept only for the regression example in Props/C03.v *)
+Definition ring_end_uint32 (cap : Z) : Z := w32 (c_queueHeaderLength + w32 (cap * c_queueElementLen)).
+
 (* mappingQueueFromBytes(data) where data = mapping[base : base+dataLen] with capacity dataCap;
-   amd64 branch.  The cap word is the cell at `base`. *)
+   amd64 branch.  The cap word is the cell at `base` (a uint32).  Since 97d22d3 the ring end is
+   computed in int: queueHeaderLength + int(cap)*queueElementLen — no wrap on a 64-bit int for a
+   uint32 cap (at most 24 + 12*(2^32-1) < 2^36). *)
 Definition map_q (base dataLen dataCap : Z) (m : mem) : outcome queue :=
   if dataLen <=? 0 then Panic 21 else                         (* data[0] *)
   let cap := m base in
-  let e := w32 (c_queueHeaderLength + w32 (cap * c_queueElementLen)) in
+  let e := c_queueHeaderLength + cap * c_queueElementLen in
   if existsb (fun k => dataLen <=? k) [off_map_queue_head; off_map_queue_tail; off_map_queue_workingFlag]
   then Panic 22 else
   if (e <? c_queueHeaderLength) || (dataCap <? e) then Panic 23 else   (* data[24:e] *)
